@@ -379,3 +379,15 @@ Theorem schedules_sound : forall x pp direct sc, well_loaded x -> validate x = O
 Proof.
   intros x pp direct sc Hwl Hok Hd. apply level_spec; [exact (validated_registry_ok _ _ Hwl Hok) | exact Hd].
 Qed.
+
+(* `lcc check` (and `lcc run` without a filter): suites = load_suites(); the second input assumption is then trivial *)
+Lemma unfiltered_well_loaded : forall x, user_fixtures (p_fixtures (xp_proj x)) -> p_suites (xp_proj x) = p_all_suites (xp_proj x) ->
+  well_loaded x.
+Proof.
+  intros x Hu Heq. split; [exact Hu|]. rewrite Heq. intros p t Hp. exists t. auto.
+Qed.
+
+Theorem lcc_check_rejects_exactly : forall x, user_fixtures (p_fixtures (xp_proj x)) -> p_suites (xp_proj x) = p_all_suites (xp_proj x) ->
+  ((exists r, validate x = Err (ValidationError r)) <-> Invalid x) /\
+  ((exists pp, validate x = Ok pp) \/ (exists r, validate x = Err (ValidationError r))).
+Proof. intros x Hu Heq. apply rejects_exactly. exact (unfiltered_well_loaded x Hu Heq). Qed.
